@@ -416,7 +416,15 @@ class Scenario(Session):
                     if behaviour == "late-ok" and it < 3: self.advance(rng.choice([100, 1500])); continue
                     pk = self.write_pending.pop(old)
                     if self.connected:
-                        for b in pk: self.broker_receive(b)
+                        for w in reversed(self.wlog):
+                            if w["result"] is None and w["pk"] == pk:
+                                w["result"] = "ok"; w["i_done"] = len(self.tr)
+                                if not w.get("early"):
+                                    w["delivered"] = len(pk)
+                                    for b in pk: self.broker_receive(b)
+                                break
+                        else:
+                            for b in pk: self.broker_receive(b)
                         self.do(f"wdone {old} ok")
                     else:
                         # never connected: the write cannot succeed; the stream keeps trying to connect
